@@ -273,7 +273,7 @@ func globalConst(st *State, a *AddrV) (SVal, bool) {
 	// package-level sentinel errors (var ErrX = errors.New(...)) are non-nil, pairwise distinct and never reassigned (assumed)
 	if isErrorType(a.Type) {
 		name := a.Key[strings.LastIndex(a.Key, ".")+1:]
-		if strings.HasPrefix(name, "Err") {
+		if strings.HasPrefix(name, "Err") || a.Key == "G|context.Canceled" || a.Key == "G|context.DeadlineExceeded" {
 			id := st.e.typeID("errvar:" + a.Key)
 			c := st.declare("errvar!"+sanitize(name), SInt)
 			if !st.declared["errvarax:"+a.Key] {
